@@ -119,6 +119,7 @@ def run_config(w, cfg):
 
 def run(tier, replay=None):
     out = common.Outcome("C20", tier)
+    out.is_replay = replay is not None
     out.rule = ("one case = one cargo feature configuration (set of protocol features x layer feature, plus 'default' and "
                 "'none') built with hooks off from the current /repo tree and EXECUTED; non-trivial = the smoke binary "
                 "was built, ran, and at least one protocol/layer round trip was observed in its output; distinct = "
